@@ -181,36 +181,47 @@ def suite_defaults(ctx):
         s.notes.append('documented defaults not found in %s (found %s): nothing compared' % (path, sorted(doc)))
         return s
     tick = cl.TICK
-    for kind in ('silence', 'pending-then-silence', 'pending-chain'):
-        conn = cl.stub.StubConn(cl.CLOCK)
-        client = Client(conn)                       # no configuration at all
-        conn.opened = True
-        if kind == 'silence':
-            conn.script = []
-        elif kind == 'pending-then-silence':
-            conn.script = [(10, b'\x7f\x3e\x78')]
-        else:
-            conn.script = [(int(i * 0.9 / tick), b'\x7f\x3e\x78') for i in range(1, 12)]
-        conn.log = []
-        cl.observe_outer(conn, lambda: client.send_request(Request(services.TesterPresent, subfunction=0)))
-        waits = [(o[1] * tick, o[2] * tick) for o in conn.log if o[0] == 'wait']
-        rt, p2, p2s = doc['request_timeout'], doc['p2_timeout'], doc['p2_star_timeout']
-        want = [(0.0, min(p2, rt))]
-        if kind == 'pending-then-silence':
-            want.append((10 * tick, min(p2s, rt - 10 * tick)))
-        elif kind == 'pending-chain':
-            for i in range(1, 12):
-                t = int(i * 0.9 / tick) * tick
-                if t >= rt:
-                    break
-                want.append((t, min(p2s, rt - t)))
-        s.evaluations += 1
-        s.distinct.add(kind)
-        got = [(round(a, 6), round(b, 6)) for a, b in waits]
-        wantr = [(round(a, 6), round(b, 6)) for a, b in want]
-        if got != wantr:
-            s.fail({'site': 'send_request', 'input': 'Client(conn) with the default configuration, reply schedule: %s' % kind, 'observed': 'waits %s' % got,
-                    'required': 'waits %s (documented defaults: request_timeout %s, p2_timeout %s, p2_star_timeout %s)' % (wantr, rt, p2, p2s)})
+    # the whole configuration left to the defaults, and configurations that give some of the three keys and leave the others to their defaults
+    # (a default that only shows when another key is given: P2* behind a longer or disabled overall timeout)
+    variants = [({}, 'Client(conn) with the default configuration'),
+                ({'request_timeout': None}, "Client(conn, config={'request_timeout': None})"),
+                ({'request_timeout': 64.0}, "Client(conn, config={'request_timeout': 64})"),
+                ({'request_timeout': 64.0, 'p2_timeout': 2.0}, "Client(conn, config={'request_timeout': 64, 'p2_timeout': 2})"),
+                ({'request_timeout': None, 'p2_star_timeout': 8.0}, "Client(conn, config={'request_timeout': None, 'p2_star_timeout': 8})"),
+                ({'p2_timeout': 1.5, 'p2_star_timeout': 2.0}, "Client(conn, config={'p2_timeout': 1.5, 'p2_star_timeout': 2})")]
+    for given, label in variants:
+        for kind in ('silence', 'pending-then-silence', 'pending-chain'):
+            conn = cl.stub.StubConn(cl.CLOCK)
+            client = Client(conn, config=dict(given)) if given else Client(conn)
+            conn.opened = True
+            if kind == 'silence':
+                conn.script = []
+            elif kind == 'pending-then-silence':
+                conn.script = [(10, b'\x7f\x3e\x78')]
+            else:
+                conn.script = [(int(i * 0.9 / tick), b'\x7f\x3e\x78') for i in range(1, 12)]
+            conn.log = []
+            cl.observe_outer(conn, lambda: client.send_request(Request(services.TesterPresent, subfunction=0)))
+            waits = [(o[1] * tick, o[2] * tick) for o in conn.log if o[0] == 'wait']
+            rt, p2, p2s = (given.get(k, doc[k]) for k in ('request_timeout', 'p2_timeout', 'p2_star_timeout'))
+            inf = float('inf')
+            rtv = inf if rt is None else rt
+            want = [(0.0, min(p2, rtv))]
+            if kind == 'pending-then-silence':
+                want.append((10 * tick, min(p2s, rtv - 10 * tick)))
+            elif kind == 'pending-chain':
+                for i in range(1, 12):
+                    t = int(i * 0.9 / tick) * tick
+                    if t >= rtv:
+                        break
+                    want.append((t, min(p2s, rtv - t)))
+            s.evaluations += 1
+            s.distinct.add(label + kind)
+            got = [(round(a, 6), round(b, 6)) for a, b in waits]
+            wantr = [(round(a, 6), round(b, 6)) for a, b in want]
+            if got != wantr:
+                s.fail({'site': 'send_request', 'input': '%s, reply schedule: %s' % (label, kind), 'observed': 'waits %s' % got,
+                        'required': 'waits %s (documented defaults: request_timeout %s, p2_timeout %s, p2_star_timeout %s)' % (wantr, doc['request_timeout'], doc['p2_timeout'], doc['p2_star_timeout'])})
     s.exhaustive = True
     return s
 
